@@ -57,6 +57,11 @@ func runStreamWith(doc []byte, rs *ReaderScn, sharedIP *commonmark.InlineParser)
 	}
 	rd := newSimReader(doc, rs, &seq)
 	obs.Reader = rd
+	defer func() {
+		if rd.stdFile != nil { // the parse ended in a panic before the caller got to close its file
+			rd.stdFile.Close()
+		}
+	}()
 	p := commonmark.NewBlockParser(rd.asReader())
 	for {
 		obs.NextCalls++
